@@ -4,6 +4,7 @@ import (
 	"go/ast"
 	"go/token"
 	"go/types"
+	"strings"
 )
 
 func init() { register("C04", checkC04) }
@@ -14,7 +15,42 @@ func checkC04(c *Check) {
 		"in both selectors the stages are ordered table rules (an ordered slice) ≺ full address ≺ domain ≺ default, each later stage reachable only over the miss edge of the earlier one, and the two siblings have the same stage sequence; a recipient reaches only the targets of the block selected for it, after that block's reject reply was honoured."
 	c.notCover = "the semantic comparison with the documented rules over generated configurations, load-time totality checks, rewrite chains (need an executable oracle); what ForLookup computes is C17."
 
-	normalisers := calling("~/framework/address.ForLookup", "~/framework/dns.ForLookup")
+	baseNormalisers := calling("~/framework/address.ForLookup", "~/framework/dns.ForLookup")
+	// a function of the pipeline package every return of which is a normaliser applied to its (single) string
+	// parameter counts as a normaliser too (`normalizeMatchRule`)
+	var normalisers CallPred
+	normalisers = func(info *types.Info, call *ast.CallExpr) bool {
+		if baseNormalisers(info, call) {
+			return true
+		}
+		fn := callee(info, call)
+		if fn == nil || fn.Pkg() == nil || !strings.HasSuffix(fn.Pkg().Path(), "/"+pipelineRel) {
+			return false
+		}
+		d := p.DeclOf(fn)
+		if d == nil || d.Decl.Body == nil || d.Decl.Type.Params == nil || len(d.Decl.Type.Params.List) != 1 || len(d.Decl.Type.Params.List[0].Names) != 1 {
+			return false
+		}
+		di := d.Info()
+		prm := di.Defs[d.Decl.Type.Params.List[0].Names[0]]
+		all, n := true, 0
+		inspectNoLit(d.Decl.Body, func(x ast.Node) bool {
+			if ret, ok := x.(*ast.ReturnStmt); ok {
+				n++
+				okRet := false
+				if len(ret.Results) == 1 {
+					if c2, ok := ast.Unparen(ret.Results[0]).(*ast.CallExpr); ok && baseNormalisers(di, c2) && len(c2.Args) == 1 && objOf(di, c2.Args[0]) == prm {
+						okRet = true
+					}
+				}
+				if !okRet {
+					all = false
+				}
+			}
+			return true
+		})
+		return all && n > 0
+	}
 
 	// ---- R1w / R3: writers in config.go
 	c.Rule("R1w", "configuration: every key inserted into the per-source / per-recipient rule maps has passed a lookup-key normaliser on all paths", 2)
@@ -49,23 +85,19 @@ func checkC04(c *Check) {
 				c.Fail("R1w", key, as.Pos(), "undecided: inserted key is not a variable")
 				continue
 			}
-			// iteration start: the range body whose value variable is k
+			// iteration start: the body of the loop whose element variable is k
 			var bodyStart []Pt
-			var loop *ast.RangeStmt
-			for _, rs := range rangesIn(fi.Decl.Body, func(rs *ast.RangeStmt) bool {
-				return rs.Value != nil && objOf(info, rs.Value) == k && posIn(rs.Body, as.Pos())
-			}) {
-				loop = rs
+			var loop *ElemLoop
+			for _, l := range elemLoops(info, fi.Decl.Body, func(ast.Expr) bool { return true }) {
+				if posIn(l.Body, as.Pos()) && l.ElemObj() == k {
+					loop = l
+				}
 			}
 			if loop == nil {
 				c.Fail("R1w", key, as.Pos(), "undecided: the inserted key is not a loop variable over the rule arguments")
 				continue
 			}
-			for _, b := range r.F.G.Blocks {
-				if b.Kind == kindRangeBody && b.Stmt == ast.Stmt(loop) {
-					bodyStart = append(bodyStart, Pt{b, 0})
-				}
-			}
+			bodyStart = r.F.LoopBodyStart(loop)
 			norm := func(q Pt) bool {
 				return nodeAssigns(q.Node(), func(l, rhs ast.Expr) bool {
 					if objOf(info, l) != k || rhs == nil {
@@ -262,9 +294,13 @@ func checkC04(c *Check) {
 			}
 		}
 		// default only on miss of the domain lookup: assignment from the default* field
-		defAssign := r.Assigns(func(l, rhs ast.Expr) bool {
-			fv := fieldOf(info, rhs)
-			return fv != nil && (fv.Name() == "defaultSource" || fv.Name() == "defaultRcpt")
+		// (the default block is selected where it is read: assigned to the result variable or returned directly)
+		defAssign := r.F.Find(func(n ast.Node) bool {
+			switch n.(type) {
+			case *ast.AssignStmt, *ast.ReturnStmt, *ast.ValueSpec:
+				return mentionsField(info, n, "defaultSource") || mentionsField(info, n, "defaultRcpt")
+			}
+			return false
 		})
 		if len(defAssign) != 1 {
 			msg = "expected exactly one fallback to the default block"
